@@ -53,6 +53,7 @@ def families(tier):
     return [
         ("lattice", lambda: (dict(phi=p) for p in phis()), 1),
         ("corpus", lambda: (dict(file=f) for f in (CORPUS_Q if q else CORPUS_T)), 1),
+        ("corpus-icodes", lambda: (dict(file=f, relabel=k) for f in (CORPUS_Q[:4] if q else CORPUS_T) for k in ("icode-pairs", "icode-triples")), 1),
     ]
 
 
@@ -170,7 +171,13 @@ def run_corpus(case):
     t = corpus.table(name)
     if corpus.has_altlocs(t):
         t = [a for a in t if a["altloc"] in (None, "A")]
-    text = enumio.emit_cif([dict(a, model=1) for a in t])
+    if case.get("relabel"):
+        # order-preserving relabeling: consecutive residues share a number and are told apart by insertion code only (10, 10A, 10B, 11, ...)
+        from mc.props.c05 import apply_abstract
+
+        t = apply_abstract([dict(a, model=1) for a in t], ("relabel", case["relabel"], None))
+        name = name + "+" + case["relabel"]
+    text = enumio.emit_cif([dict(a, model=1) for a in t], label_differs=bool(case.get("relabel")))
     path = os.path.join(scratch_dir(), "c18.cif")
     with open(path, "w") as f:
         f.write(text)
@@ -234,6 +241,23 @@ def run_corpus(case):
                 if math.isnan(c[1]) or rt.angdiff(c[1], ref) > 1e-9:
                     kind = "known-letter" if letter.upper() in "ACGUT" else "unknown-letter"
                     out.append(viol("corpus:chi:differs-from-reference:" + kind, "%s chi of %s read as one-letter %r: %.9f vs reference %.9f (%s)" % (name, r.full_name, letter, c[1], ref, "-".join(("O4'", "C1'") + base))))
+    # the annotation pipeline (incl. inter-stem parameters) works on the same objects: torsions asked afterwards must not have moved
+    if not case.get("relabel"):
+        from rnapolis.annotator import extract_secondary_structure
+
+        before = [(r.full_name, r.chi) for r in residues]
+        ann = observe(extract_secondary_structure, s, None, False, False)
+        if ann[0] == "ok":
+            after = [(r.full_name, r.chi) for r in s.residues]
+            fresh = []
+            with open(path) as f:
+                s2 = read_3d_structure(f, None)
+            ann2 = observe(extract_secondary_structure, s2, None, False, False)
+            fresh = [(r.full_name, r.chi) for r in s2.residues]  # first asked after the annotation
+            for lab, lst in (("re-asked", after), ("first-asked", fresh)):
+                bad = [(a[0], a[1], b[1]) for a, b in zip(before, lst) if not (a[1] == b[1] or (math.isnan(a[1]) and math.isnan(b[1])))]
+                if bad:
+                    out.append(viol("corpus:chi-changes-after-annotation:" + lab, "%s: chi of %d residue(s) differs once the structure has been annotated (%s): e.g. %s %.6f -> %.6f" % (name, len(bad), lab, bad[0][0], bad[0][1], bad[0][2])))
     if neg:
         out.append(viol("corpus:v2==-reference", "tertiary_v2.calculate_torsion_angle returned the negated reference value for %d backbone torsions of %s" % (neg, name)))
     # v2 torsion table
@@ -263,6 +287,49 @@ def run_corpus(case):
                 deg = math.degrees(float(chi))
                 if not (-180.0 <= deg <= -110.0):
                     stem_syn.append((key, round(deg, 1)))
+        # backbone columns of the table against the reference formula on the same atoms (neighbours = file-adjacent residues of the chain)
+        pos = {(r.chain, r.number, r.icode): i for i, r in enumerate(residues)}
+        bneg = bbad = 0
+        first_bad = None
+        for _, row in ta[1].iterrows():
+            ic = row["insertion_code"]
+            ic = None if ic is None or (isinstance(ic, float) and math.isnan(ic)) else ic
+            key = (row["chain_id"], int(row["residue_number"]), ic)
+            if key not in pos:
+                bbad += 1
+                first_bad = first_bad or ("row for unknown residue", key)
+                continue
+            i = pos[key]
+            for an, spec in BACKBONE.items():
+                val = row[an]
+                if val is None or (isinstance(val, float) and math.isnan(val)):
+                    continue
+                pts = []
+                for nm, off in spec:
+                    j = i + off
+                    a = residues[j].find_atom(nm) if 0 <= j < len(residues) and residues[j].chain == key[0] else None
+                    if a is None:
+                        pts = None
+                        break
+                    pts.append(a.coordinates)
+                if not pts:
+                    bbad += 1
+                    first_bad = first_bad or ("%s listed although its atoms are not all present" % an, key)
+                    continue
+                ref = rt.torsion(*pts)
+                if abs(math.sin(ref)) < 1e-6:
+                    continue
+                n += 1
+                if rt.angdiff(float(val), ref) > 1e-9:
+                    if rt.angdiff(float(val), -ref) <= 1e-9:
+                        bneg += 1
+                    else:
+                        bbad += 1
+                        first_bad = first_bad or ("%s = %.6f, the atoms of the residue give %.6f" % (an, float(val), ref), key)
+        if bbad:
+            out.append(viol("corpus:v2-table:backbone-wrong", "%d backbone values of the v2 torsion table are not the dihedral of the residue's own atoms (%s): %s" % (bbad, name, first_bad)))
+        if bneg:
+            out.append(viol("corpus:v2-table:backbone==-reference", "%d backbone values of the v2 torsion table are the negated reference value (%s)" % (bneg, name)))
         if tbad:
             out.append(viol("corpus:v2-table:chi-wrong", "%d chi values of the v2 torsion table differ from Residue3D.chi by more than sign" % tbad))
         if tneg:
